@@ -83,3 +83,22 @@ extern "C" void h_Delete_Clear()
     m->InstMgr::ClearInstances();
     __CPROVER_assert(g_clear_calls == 1 && m->InstMgr::FindFileId(in_key) == 0 && m->maxFileId == -1, "C13 ClearInstances empties the sequence and the id index and resets the id counter");
 }
+
+/* C13: Delete by instance removes exactly the node filed under the instance's id and never lowers the id counter (ids handed out
+ * later stay above every id seen since the manager was last emptied) */
+extern "C" void h_Delete_by_instance()
+{
+    IN(int, in_maxid); IN(int, in_id); IN(int, in_key); IN(int, in_idx); IN(int, in_other);
+    __CPROVER_assume(in_maxid >= 0 && in_id >= 0 && in_id <= in_maxid);
+    InstMgr *m = mk_mgr(in_maxid);
+    verif_map_key = in_key;
+    MgrNode *node = mk_node(in_id); node->arrayIndex = in_idx;
+    MgrNode *other = mk_node(in_key);
+    __CPROVER_assume(in_key == in_id);          /* the ghost key is the instance's id: the node is what the index holds for it */
+    m->sortedMaster->_present = 1; m->sortedMaster->_slot.first = in_key; m->sortedMaster->_slot.second = node;
+    g_remove_calls = g_node_remove_calls = g_delete_calls = g_clear_calls = 0;
+    m->InstMgr::Delete(node->se);
+    __CPROVER_assert(g_remove_calls == 1 && g_remove_index == in_idx && g_delete_calls == 1 && g_deleted == node, "C13 Delete by instance removes and destroys exactly the node filed under the instance's id");
+    __CPROVER_assert(m->InstMgr::FindFileId(in_id) == 0, "C13 after Delete by instance the id is free");
+    __CPROVER_assert(m->maxFileId == in_maxid, "C13 deleting an instance never lowers the id counter: ids handed out afterwards stay above every id seen since the manager was last emptied");
+}
